@@ -225,6 +225,7 @@ func trunc(x []int) []int {
 }
 
 func mustWork(c *mc.Ctx, r sessResult, so sessOpts, what, fam string) bool {
+	c.Case(fam+"/"+what, fmt.Sprint(r.dialErr != nil, r.srvErr != nil, r.rdErr != nil, len(r.got)))
 	if len(r.panics) > 0 {
 		fail(c, "no-panic", "panic/"+fam, "%s: %s", what, r.panics[0])
 		return false
@@ -260,6 +261,7 @@ func mustWork(c *mc.Ctx, r sessResult, so sessOpts, what, fam string) bool {
 }
 
 func mustFail(c *mc.Ctx, r sessResult, what, fam string) {
+	c.Case(fam+"/"+what, fmt.Sprint(r.dialErr != nil, r.rdErr != nil, len(r.got)))
 	if len(r.panics) > 0 {
 		fail(c, "no-panic", "panic/"+fam, "%s: %s", what, r.panics[0])
 		return
